@@ -322,3 +322,58 @@ func setXid(m util.Message, xid uint32) {
 	_ = hdr(nil)
 	setXidReflect(m, xid)
 }
+
+// TestC11Idle: a connection that is quiet for longer than the stream's write
+// timeout (10 s) and then used again. The scripted connection honours read and
+// write deadlines the way a TCP connection does, so a deadline armed for the
+// wrong direction ends the stream during the pause; everything submitted after
+// the pause must still reach the wire, and nothing is published on Error.
+func TestC11Idle(t *testing.T) {
+	c := ev.For("C11")
+	defer c.Done()
+	c.Rule("TestC11Idle: 3 messages, a pause of 10.5 s (longer than the stream's write timeout) with the inbound side idle, 3 more messages, on a connection that honours deadlines; oracle: all 6 encodings on the wire in order, nothing on Error.")
+	if !shard0() {
+		return
+	}
+	conn := newScriptConn(nil, nil)
+	ms := util.NewMessageStream(conn, copyingParser{})
+	var want []byte
+	send := func(from, to int) {
+		for i := from; i < to; i++ {
+			f := make([]byte, 8+i*3)
+			f[0], f[1] = 4, 2
+			binary.BigEndian.PutUint16(f[2:], uint16(len(f)))
+			binary.BigEndian.PutUint32(f[4:], uint32(i))
+			want = append(want, f...)
+			ms.Outbound <- &rawMsg{data: f}
+		}
+	}
+	c.Eval()
+	send(0, 3)
+	time.Sleep(10500 * time.Millisecond)
+	c.Eval()
+	send(3, 6)
+	deadline := time.Now().Add(lossWait)
+	for conn.WrittenBytes() < len(want) && time.Now().Before(deadline) {
+		time.Sleep(5 * time.Millisecond)
+	}
+	var errs []error
+	select {
+	case e := <-ms.Error:
+		errs = append(errs, e)
+	default:
+	}
+	got := bytes.Join(conn.Writes(), nil)
+	select {
+	case ms.Shutdown <- true:
+	default:
+	}
+	conn.Close()
+	if !bytes.Equal(got, want) || len(errs) > 0 {
+		c.Report(t, "C11|idle|lost-after-pause", fmt.Sprintf("3 messages, a 10.5 s pause, 3 more: %d of %d bytes on the wire, errors %v", len(got), len(want), errs), map[string]any{"wire": hx(got)})
+		return
+	}
+	c.NonTrivial(ev.HashStr("idle", "before"))
+	c.NonTrivial(ev.HashStr("idle", "after"))
+	c.Label("idle_longer_than_write_timeout")
+}
